@@ -26,7 +26,8 @@ def register(w):
         "aiomysensors.gateway.Gateway.send",
         params={"self": GW, "message": MSG, "message_buffer": TBool},
         requires=[H("command-in-range", "0 <= message.command and message.command <= 4"),
-                  H("schema-follows-protocol", "self._message_schema.ctx_protocol == self._protocol")],
+                  H("schema-follows-protocol", "self._message_schema.ctx_protocol == self._protocol"),
+                  H("wf/buffer-dicts-distinct", "not (self._message_buffer.internal_messages is self._message_buffer.set_messages)")],
         pre_lets={
             "key": "key3(message)",
             "buf": "self._message_buffer",
